@@ -18,10 +18,12 @@
       shortened length whose prefix happens to sum up are outside E4's detection and outside the
       model ([C18_nak_to_ack_refuted] shows why).
     - A retries-exhausted send takes the link down: [Down] is terminal, the end takes no further
-      line step; re-establishment is not modelled. The CURRENT engine goes on answering the line
-      until the core's teardown reaches it and loses what it ACKs in that window (known finding
-      C18-ack-into-closing-generation; LineProofs.served_after_failure_refuted); the repair
-      fixes/C18-stop-engine-after-send-failed.diff makes this assumption true of the code.
+      line step; re-establishment is not modelled. This MATCHES THE CODE since fix 2852a07
+      (transport.lineEngine returns right after reporting ErrSendFailed). Before that fix the
+      engine went on answering the line until the core's teardown reached it and lost what it
+      ACK'd in that window (finding C18-ack-into-closing-generation, now fixed; the behaviour of
+      the old engine is kept as LineProofs.served_after_failure_refuted, and the check's race
+      probe keeps watching for it).
     Blocks are abstract: (message token, index within the message, last flag); the receiver's
     assembler is the abstract image of the C17 assembler on in-sequence blocks of ours (duplicate
     record, expected index, first-block restart), without T4 and addressing, which C17 covers. *)
